@@ -35,7 +35,12 @@ type CleanCase struct {
 	CleanTask bool       `json:"clean_task"`
 	PreCache  bool       `json:"pre_cache"`
 	NTasks    int        `json:"ntasks"`
+	// Deps: file / glob dependencies spread over the tasks (they overlap the outputs: a file may
+	// be read by one task and be another's output); what a task reads has no bearing on --clean
+	Deps []string `json:"deps,omitempty"`
 }
+
+var cleanDepPool = []string{"build/*.o", "**/*.tmp", "src/main.c", "bin/app", "dist/**/*.js", "*.tmp", "b*/*", "README.md", "a/b/c.out"}
 
 var cleanTreePool = []string{
 	"bin/app", "bin/x", "bin/keep.txt", "dist/a.js", "dist/sub/b.js", "a/b/c.out", "a/b/keep", "build/x.o", "build/y.o", "build/z.c",
@@ -96,6 +101,9 @@ func genCleanBody(t *rapid.T) CleanCase {
 	c.CleanTask = rapid.IntRange(0, 3).Draw(t, "clean_task") == 3
 	c.PreCache = rapid.Bool().Draw(t, "pre_cache")
 	c.NTasks = rapid.IntRange(1, 3).Draw(t, "ntasks")
+	if rapid.IntRange(0, 2).Draw(t, "with_deps") == 0 {
+		c.Deps = rapid.SliceOfN(rapid.SampledFrom(cleanDepPool), 1, 3).Draw(t, "deps")
+	}
 	return c
 }
 
@@ -120,8 +128,13 @@ func (c CleanCase) source() string {
 	for _, g := range c.Globs {
 		add(`"` + g + `"`)
 	}
+	deps := make([][]string, c.NTasks)
+	for j, d := range c.Deps {
+		// shifted by one so that a pattern tends to be read by one task and written by another
+		deps[(j+1)%c.NTasks] = append(deps[(j+1)%c.NTasks], `"`+d+`"`)
+	}
 	for i := 0; i < c.NTasks; i++ {
-		fmt.Fprintf(&b, "# builds things\ntask %s()", cleanTaskNames[i])
+		fmt.Fprintf(&b, "# builds things\ntask %s(%s)", cleanTaskNames[i], strings.Join(deps[i], ", "))
 		switch len(outs[i]) {
 		case 0:
 		case 1:
